@@ -1,4 +1,4 @@
-// want: [7] "hello"
+// want: [7] "hello" "hello" "hello"
 package main
 
 import (
@@ -12,6 +12,16 @@ import (
 //
 //go:embed d27_hello.txt
 var data string
+
+// a group that has its own doc comment, with directives as doc comments of its specs
+var (
+	//go:embed d27_hello.txt
+	grouped string
+
+	// plain doc
+	//go:embed d27_hello.txt
+	grouped2 string
+)
 
 func g() Iter[int] {
 	lit := func() Iter[int] {
@@ -27,5 +37,5 @@ func main() {
 	for v := range g() {
 		out = append(out, v)
 	}
-	fmt.Printf("%v %q\n", out, data)
+	fmt.Printf("%v %q %q %q\n", out, data, grouped, grouped2)
 }
